@@ -643,6 +643,87 @@ fn run_sock(cfg: &Value) {
     }
 }
 
+/// `flood`: N consecutive responses for ids nobody asked for, all readable at once, fed to a hand-polled client dispatch in a
+/// child process (a stack overflow aborts the process and cannot be caught in-process).
+fn run_flood(cfg: &Value) {
+    let n = cfg["n"].as_u64().unwrap_or(1_000_000);
+    let exe = std::env::current_exe().expect("current exe");
+    let out = std::process::Command::new(exe).arg("floodchild").arg("--opt").arg(format!("n={}", n)).output();
+    match out {
+        Ok(o) => {
+            let ok = o.status.success();
+            emit("Flood", json!({"n": n, "crashed": !ok, "status": format!("{:?}", o.status.code()),
+                                 "served": String::from_utf8_lossy(&o.stdout).contains("SERVED")}));
+        }
+        Err(e) => emit("Flood", json!({"n": n, "crashed": true, "status": e.to_string(), "served": false})),
+    }
+}
+
+/// The child of `run_flood`: prints SERVED if, after the flood, a well-formed call still completes.
+pub fn flood_child(a: &Args) -> Value {
+    use futures::task::noop_waker;
+    struct FloodT {
+        left: u64,
+        pending: VecDeque<Response<String>>,
+        sent: Vec<ClientMessage<String>>,
+    }
+    impl Stream for FloodT {
+        type Item = Result<Response<String>, io::Error>;
+        fn poll_next(mut self: Pin<&mut Self>, _cx: &mut Context<'_>) -> Poll<Option<Self::Item>> {
+            if self.left > 0 {
+                self.left -= 1;
+                let id = 1_000_000_000 + self.left;
+                return Poll::Ready(Some(Ok(Response { request_id: id, message: Ok("stale".to_string()) })));
+            }
+            match self.pending.pop_front() {
+                Some(r) => Poll::Ready(Some(Ok(r))),
+                None => Poll::Pending,
+            }
+        }
+    }
+    impl Sink<ClientMessage<String>> for FloodT {
+        type Error = io::Error;
+        fn poll_ready(self: Pin<&mut Self>, _cx: &mut Context<'_>) -> Poll<io::Result<()>> {
+            Poll::Ready(Ok(()))
+        }
+        fn start_send(mut self: Pin<&mut Self>, item: ClientMessage<String>) -> io::Result<()> {
+            if let ClientMessage::Request(r) = &item {
+                let id = r.id;
+                self.pending.push_back(Response { request_id: id, message: Ok("body".to_string()) });
+            }
+            self.sent.push(item);
+            Ok(())
+        }
+        fn poll_flush(self: Pin<&mut Self>, _cx: &mut Context<'_>) -> Poll<io::Result<()>> {
+            Poll::Ready(Ok(()))
+        }
+        fn poll_close(self: Pin<&mut Self>, _cx: &mut Context<'_>) -> Poll<io::Result<()>> {
+            Poll::Ready(Ok(()))
+        }
+    }
+    let n = a.opt_u64("n", 1_000_000);
+    let clock = Clock::new();
+    let _g = clock.rt.enter();
+    let nc = tarpc::client::new(tarpc::client::Config::default(), FloodT { left: n, pending: VecDeque::new(), sent: vec![] });
+    let mut dispatch = Box::pin(nc.dispatch);
+    let client = nc.client;
+    let w = noop_waker();
+    let mut cx = Context::from_waker(&w);
+    let mut call = Box::pin(async move { client.call(tarpc::context::current(), "q".to_string()).await });
+    let mut served = false;
+    for _ in 0..50 {
+        let _ = dispatch.as_mut().poll(&mut cx);
+        if let Poll::Ready(r) = call.as_mut().poll(&mut cx) {
+            served = r.is_ok();
+            break;
+        }
+    }
+    if served {
+        println!("SERVED");
+    }
+    json!({"family": "floodchild", "served": served})
+}
+
 fn frame(payload: &[u8]) -> Vec<u8> {
     let mut b = BytesMut::new();
     b.put_u32(payload.len() as u32);
@@ -1163,6 +1244,7 @@ pub fn run(a: &Args) -> Value {
         let r = exec::catch(|| match kind.as_str() {
             "rt" => run_rt(&clock, &s.cfg),
             "sock" => run_sock(&s.cfg),
+            "flood" => run_flood(&s.cfg),
             "kinds" => run_kinds(&clock, &s.cfg),
             "omit" => run_omit(&clock, &s.cfg),
             "garbage" => run_garbage(&clock, &s.cfg),
